@@ -75,7 +75,7 @@ func (a1 jsonMultiset) diff(n JsonNode, path path, metadata []Metadata, strategy
 		}
 		return append(d, e)
 	}
-	if strategy == mergePatchStrategy && !a1.Equals(n) {
+	if strategy == mergePatchStrategy && !a1.Equals(n, metadata...) {
 		e := DiffElement{
 			Path:      path.prependMetadataMerge(),
 			NewValues: nodeList(n),
